@@ -170,6 +170,12 @@ def h_special(sx):
                          ("not {config.tags}", ["not", dtree]),
                          ("zzz or {config.tags}", ["or", ["lit", "zzz"], dtree]),
                          ("{config.tags} or zzz and x", ["or", dtree, ["and", ["lit", "zzz"], ["lit", "x"]]])):
+        if sx.params.get("after_v1"):
+            # an earlier configuration of the same process chose the old dialect
+            cfg0 = base_config(("--no-summary",))
+            cfg0.tag_expression_protocol = TagExpressionProtocol.V1
+            cfg0.tags = ["a,b.c"]
+            cfg0.setup_tag_expression()
         cfg = base_config(("--no-summary",))
         cfg.tag_expression_protocol = TagExpressionProtocol.V2 if sx.params.get("protocol", "v2") == "v2" else TagExpressionProtocol.AUTO_DETECT
         cfg.config_tags = dtext
@@ -216,4 +222,7 @@ def jobs(tier, seed):
                               {"defaults": defaults, "at": at, "as_list": as_list, "protocol": proto, "config_list": bool(as_list)},
                               reach=["C07.empty-selects-everything", "C07.config-tags-substitution"], min_paths=6, cost=50,
                               validate=30, closure=False))
+    js.append(Job("special.after-v1", "props.c07:h_special",
+                  {"defaults": defaults, "at": False, "as_list": False, "protocol": "v2", "after_v1": True},
+                  reach=["C07.config-tags-substitution"], min_paths=6, cost=50, validate=30, closure=False))
     return js
